@@ -5,18 +5,13 @@ package main
 import (
 	"database/sql"
 	"fmt"
+	"sort"
 	"strings"
-	"time"
 )
 
 // withViews: append the content of the six documented SQL views (select * from v...) to every
 // protocol line, for the `W` verdict of the Lean driver (C11, last clause).
 var withViews bool
-
-// sqliteDatetime renders unix milliseconds the way the views do: datetime(ms/1000, 'unixepoch').
-func sqliteDatetime(ms int64) string {
-	return time.Unix(ms/1000, 0).UTC().Format("2006-01-02 15:04:05")
-}
 
 // takeViews reads the six views through q. The rendered etime/mtime columns are compared here
 // with the raw rkey row of the same kid (fmt=1/0): timestamps inside the canonicalised call
@@ -27,6 +22,20 @@ func takeViews(q querier, d *dumpT) (string, error) {
 	for _, r := range d.keys {
 		byID[r.id] = r
 	}
+	// (raw milliseconds, rendered text) pairs seen in the etime / mtime columns: judged by the Lean model of
+	// datetime(ms/1000, 'unixepoch'); a NULL text is "-"
+	rendered := map[int64]string{}
+	conflict := false
+	note := func(ms int64, t sql.NullString) {
+		txt := "-"
+		if t.Valid {
+			txt = hxs(t.String)
+		}
+		if old, ok := rendered[ms]; ok && old != txt {
+			conflict = true
+		}
+		rendered[ms] = txt
+	}
 	fmtOK := func(kid int64, et, mt sql.NullString) int {
 		r, ok := byID[kid]
 		if !ok {
@@ -36,14 +45,10 @@ func takeViews(q querier, d *dumpT) (string, error) {
 			return 0
 		}
 		if r.etime != nil {
-			if sec := *r.etime / 1000; sec < -62167219200 || sec > 253402300799 {
-				return 1 // outside SQLite's date range (NULL or unspecified text): not judged
-			}
-			if et.String != sqliteDatetime(*r.etime) {
-				return 0
-			}
+			note(*r.etime, et)
 		}
-		if !mt.Valid || mt.String != sqliteDatetime(r.mtime) {
+		note(r.mtime, mt)
+		if conflict {
 			return 0
 		}
 		return 1
@@ -133,6 +138,15 @@ func takeViews(q querier, d *dumpT) (string, error) {
 		return fmt.Sprintf("%d %s %s %s %d", kid, hx(key), hx(v), dy(sc), fmtOK(kid, et, mt)), err
 	}); err != nil {
 		return "", err
+	}
+	mss := make([]int64, 0, len(rendered))
+	for ms := range rendered {
+		mss = append(mss, ms)
+	}
+	sort.Slice(mss, func(i, j int) bool { return mss[i] < mss[j] })
+	fmt.Fprintf(&b, "VT %d", len(mss))
+	for _, ms := range mss {
+		fmt.Fprintf(&b, " %d %s", ms, rendered[ms])
 	}
 	return strings.TrimSpace(b.String()), nil
 }
